@@ -466,3 +466,15 @@ def _m_clear_right(mod):
         return False
 
     return mod if replace_in_func(mod, "expand_connectors", edit) else None
+
+
+@SPEC.mutant("connector loop left at the first parameter", TREE, "R09.7", "runs to the end")
+def _m_break_at_parameter(mod):
+    def edit(fn):
+        for lp in ast.walk(fn):
+            if isinstance(lp, ast.For) and norm(lp.iter).endswith(".symbols.values()") and "flat_class" in norm(lp.iter):
+                lp.body.insert(0, ast.parse("if %s.prefixes[:1] == ['parameter']:\n    break" % norm(lp.target)).body[0])
+                return True
+        return False
+
+    return mod if replace_in_func(mod, "expand_connectors", edit) else None
